@@ -409,6 +409,7 @@ def run(ck: Check, repo: Repo) -> None:
     esc = Escape(cg)
     if len(cg.unresolved) > 25:
         raise AnalysisError(f"too many unresolved calls ({len(cg.unresolved)})")
+    ck.extra.setdefault("hygiene_scope", []).extend(sorted(cg.reachable(["reuse.cli.main.main"] + [repo.qualname_of(f) for f in repo.commands().values()])))
     rule_escape(ck, repo, cg, esc)
     rule_validate(ck, repo)
     rule_isolation(ck, repo)
